@@ -55,7 +55,9 @@ MANIFEST = {
     "note": "Trusted: Coq kernel + vm_compute, tr_tables translator, frozen spec tables, simplejson text layer (abstract: "
             "byte identity of texts is checked by the oracle only), the generator. Python-only values (datetime) inside custom "
             "properties are outside the statement (DESIGN 6). Theorem hypotheses not discharged for the pinned tree: "
-            "vr_year_pad, vr_positional_none, vr_md20_default_ms, vr_bundle20_recheck (all fixed in /repo HEAD; detected per run).",
+            "vr_year_pad, vr_positional_none, vr_md20_default_ms, vr_bundle20_recheck (all fixed in /repo HEAD; detected per run). "
+            "The oracle worker runs under the POSIX zone IST-5:30 and a PYTHONHASHSEED other than the driver's; an exception of "
+            "the oracle itself is reported per case (oracle-could-not-evaluate-the-case), never swallowed.",
     "technique": "Coq proof over an executable model + correspondence run + property oracle on the implementation",
 }
 
